@@ -250,23 +250,15 @@ where
 
         // Convert right to negative notation and trim.
         // Offset to have inclusive behavior.
-        if right > 0 && right < len {
+        if right >= 0 && right < len {
             r = (right - len + 1).unsigned_abs();
-        } else if right < 0 && right.abs() <= len {
-            r = (right.abs() - 1).unsigned_abs();
+        } else if right < 0 && right.unsigned_abs() <= len as usize {
+            r = right.unsigned_abs() - 1;
         } else if right < 0 {
             r = len as usize;
         }
         if r > 0 {
             (&mut self).rev().nth(r - 1);
-        }
-
-        // Get first or last
-        if left == 0 && right == 0 {
-            let i = len - 2;
-            if i > 0 {
-                (&mut self).rev().nth(i as usize);
-            }
         }
 
         self
